@@ -153,6 +153,15 @@ Proof.
   - (* OGeom *)
     rewrite <- Fw1 in Hpre. destruct (live_some h1 w Hpre) as [cw Hw].
     unfold bind. rewrite (getw_run h1 w cw Hw). cbn. apply Hst. apply stable_refl.
+  - (* OTouch *)
+    destruct Hpre as [Hpw [Hpj Hpa]]. rewrite <- Fw1 in Hpw. destruct (live_some h1 w Hpw) as [cw Hw].
+    unfold bind at 1. rewrite (getw_run h1 w cw Hw). unfold bind at 1.
+    assert (Hj : (match j with Some a => getw a ;;; ret tt | None => ret tt end) h1 = Ok tt h1).
+    { destruct j as [a|]; [|reflexivity]. pose proof (Hpj a eq_refl) as Hla. rewrite <- Fw1 in Hla.
+      destruct (live_some h1 a Hla) as [ca Ha]. unfold bind. rewrite (getw_run h1 a ca Ha). reflexivity. }
+    rewrite Hj. destruct walk; [|cbn; apply Hst; apply stable_refl].
+    pose proof (scroll_up_spec [] f w h1 HI1 (Hanc1 _ _ (Hpa eq_refl))) as Hs.
+    destruct (scroll_up f w h1) as [u h2| |]; [|contradiction|exact I]. subst h2. apply Hst. apply stable_refl.
   - (* ONop *)
     cbn. apply Hst. apply stable_refl.
 Qed.
@@ -527,6 +536,12 @@ Proof.
   - destruct (gusable g (idx w)) eqn:Hu; [|discriminate]. inversion Hstep; subst g'.
     pose proof (agree_usable_live g h AG (idx w) Hu) as Hl. rewrite addr_idx in Hl.
     split; [exact Hl|]. intros h' S. eapply agree_stable; eauto.
+  - destruct (gusable g (idx w) && match j with Some a => gusable g (idx a) | None => true end) eqn:Hc; [|discriminate].
+    inversion Hstep; subst g'. apply andb_prop in Hc. destruct Hc as [Hu Hj].
+    pose proof (agree_usable_live g h AG (idx w) Hu) as Hl. rewrite addr_idx in Hl.
+    split; [split; [exact Hl|split]|intros h' S; eapply agree_stable; eauto].
+    + intros a Ea. subst j. pose proof (agree_usable_live g h AG (idx a) Hj) as Hla. rewrite addr_idx in Hla. exact Hla.
+    + intros _. pose proof (agree_usable g h AG (idx w) Hu) as Ha. rewrite addr_idx in Ha. exact Ha.
   - inversion Hstep; subst g'. split; [exact I|]. intros h' S. eapply agree_stable; eauto.
 Qed.
 
